@@ -91,10 +91,11 @@ def specInstances (P : List Prim) (bound : Nat) : List Prim :=
 
 /-- decidable classifier of finding C14-F4: some instance, before the unit pass, has both a
     unit argument and an argument that is a function returning unit -/
-def hasUnitRetArg (t : Ty) : Bool :=
-  (arguments t).any (fun a => match a with
-    | .node .arrow [_, y] => y == Ty.unit
-    | _ => false)
+def returnsUnitFn : Ty → Bool
+  | .node .arrow [_, y] => y == Ty.unit
+  | _ => false
+
+def hasUnitRetArg (t : Ty) : Bool := (arguments t).any returnsUnitFn
 
 def unitSafe (t : Ty) : Bool := !(hasUnitArg t && hasUnitRetArg t)
 
